@@ -9,7 +9,7 @@ every root of unity, irreducibility of the five extension polynomials, Frobenius
 (B) Encodings, Generate -> Replay: spec/field/FieldEnc.tla enumerates decoder inputs around 0, p, 2^62,
 2^63, 2^64, 2^128 at right and wrong lengths with the expected Ok(value)/Err and re-encoding; the real
 decoders of the 3 base fields and 5 extension fields are replayed on them."""
-import json, os, re, collections
+import json, os, re, collections, concurrent.futures
 import vf
 import C10
 
@@ -20,6 +20,12 @@ META = dict(
     text="For f64, f62 and f128 TLC derives from calls recorded on the real code that MODULUS is prime and GENERATOR generates the group (g^(p-1)=1, g^((p-1)/q)!=1 for every prime q of a TLC-verified factorisation of p-1, sub-primes certified recursively), TWO_ADICITY = v2(p-1), get_root_of_unity(n) has exact order 2^n for every n (111 orders, exhaustive), the five extension polynomials are irreducible (x^p - x invertible modulo the polynomial, Euler criterion for the quadratics) and conjugate() is the p-th power; and every decoder (TryFrom<u64/u128/[u8;8]/&[u8]>, read_from, read_from_bytes, from_random_bytes, from_bytes_with_padding, read_many, extension decoders) is replayed on TLC-enumerated boundary inputs with the specification's verdict (value < p accepted and re-encoded to the same bytes, value >= p and wrong lengths rejected).",
     note="Factorisations of p-1 were computed once with sympy and are re-verified by TLC (product and recursive primality) in every run; decoder inputs are boundary-enumerated, not exhaustive; from_bytes_with_padding is exercised only on its documented domain; bytes_as_elements (unsafe, internal representation, documented as unchecked) is not treated as a decoder.",
     design="7/C11")
+
+
+def _fieldconst_job(arg):
+    f, path = arg
+    r = vf.tlc("FieldConst.tla", "FieldConst.cfg", cwd=SPECDIR, workers=1, timeout=1500, env={"TRACE": path, "FIELD": f}, deque=True)
+    return r.ok, r.error, r.raw, r.prints, r.distinct, r.generated, r.wall
 
 
 def consts_part(ck, binary, tier):
@@ -50,40 +56,56 @@ def consts_part(ck, binary, tier):
         vf.write_ndjson(path, events)
     ops = collections.Counter(e["op"] for e in events)
     ck.require(ops["root"] == 32 + 39 + 40 or summary["stuck"], "expected 111 root-of-unity events, got %d" % ops["root"])
-    r = vf.tlc("FieldConst.tla", "FieldConst.cfg", cwd=SPECDIR, workers=1, timeout=1500, env={"TRACE": path}, deque=True)
     os.unlink(path)
-    ck.add_tlc("consts", r)
-    consumed = [ln for ln in r.prints if ln.startswith('<<"CONSUMED"')]
-    if not r.ok or not consumed:
-        raise vf.ToolError("FieldConst validation did not complete: %s\n%s" % (r.error, r.raw[-1500:]))
-    rejected = [int(m.group(1)) - 1 for m in (re.match(r'^<<"REJECTED_EVENT", (\d+)>>', ln) for ln in r.prints) if m]
-    concl = [re.match(r'^<<"CONCLUSION", (\d+), (\d+)>>', ln) for ln in r.prints]
-    concl = [m for m in concl if m]
-    fails = [ln[5:-1].split(" | ") for ln in r.prints if ln.startswith('"TAG ')]
-    ck.require(len(concl) == 1, "FieldConst printed no conclusion")
     ck.traces += 1
     ck.evaluations += len(events)
-    ck.part("consts", events=len(events), ops=dict(ops), facts=int(concl[0].group(2)), rejected=len(rejected),
-            failed_conditions=int(concl[0].group(1)), stuck=summary["stuck"])
+    # one FieldConst run per field, in parallel (the certificates of different fields are independent)
+    jobs = []
+    for f in ("f64", "f62", "f128"):
+        idx = [i for i, e in enumerate(events) if e["f"] == f]
+        fpath = os.path.join(wd, "c11-%s-%d.ndjson" % (f, os.getpid()))
+        vf.write_ndjson(fpath, [events[i] for i in idx])
+        jobs.append((f, idx, fpath))
+    with concurrent.futures.ProcessPoolExecutor(max_workers=3) as ex:
+        results = list(ex.map(_fieldconst_job, [(f, fpath) for f, idx, fpath in jobs]))
+    total_failed, total_facts, all_rejected = 0, 0, 0
+    for (f, idx, fpath), (ok, error, raw, prints, distinct, generated, wall) in zip(jobs, results):
+        os.unlink(fpath)
+        ck.states += distinct
+        ck.transitions += generated
+        consumed = [ln for ln in prints if ln.startswith('<<"CONSUMED"')]
+        if not ok or not consumed:
+            raise vf.ToolError("FieldConst validation (%s) did not complete: %s\n%s" % (f, error, raw[-1500:]))
+        rejected = [idx[int(m.group(1)) - 1] for m in (re.match(r'^<<"REJECTED_EVENT", (\d+)>>', ln) for ln in prints) if m]
+        concl = [m for m in (re.match(r'^<<"CONCLUSION", (\d+), (\d+)>>', ln) for ln in prints) if m]
+        fails = [[x.replace('\\"', "").replace('"', "") for x in ln[5:-1].split(" | ")] for ln in prints if ln.startswith('"TAG ')]
+        ck.require(len(concl) == 1, "FieldConst printed no conclusion for " + f)
+        ck.part("consts:" + f, tlc_states=distinct, tlc_wall_s=round(wall, 2), events=len(idx), facts=int(concl[0].group(2)),
+                rejected=len(rejected), failed_conditions=int(concl[0].group(1)))
+        total_failed += int(concl[0].group(1))
+        all_rejected += len(rejected)
+        for i in rejected:
+            e = events[i]
+            if e.get("cert"):
+                raise vf.ToolError("certificate event rejected (committed spec data wrong?): %s" % json.dumps({k: e.get(k) for k in ("f", "d", "op", "k")}))
+            if e["op"] in C10.ALL_OPS + ["from", "from_mont", "mul_small"]:
+                sig, desc = C10.signature(e), C10.describe(e)
+            else:
+                sig = "%s.%s rejected%s" % (e["f"], e["op"], " n=%d" % e["n"] if "n" in e else "")
+                desc = json.dumps({k: v for k, v in e.items() if k not in ("h", "sq", "chain")})
+            ck.violation("consts: " + sig, desc, {"engine": "consts", "seed": ck.seed, "tier": tier, "event": {k: v for k, v in e.items() if k != "chain"}})
+        for kind, who, what in fails:
+            if kind == "DATA_FAIL" and not rejected:
+                raise vf.ToolError("committed specification data failed its own check: %s (%s)" % (what, who))
+            ck.violation("certificate %s: %s" % (who, what), "condition not derivable from the recorded calls: %s for %s" % (what, who),
+                         {"engine": "consts", "seed": ck.seed, "tier": tier, "failed": [kind, who, what]})
+        ck.require(int(concl[0].group(1)) == len(fails), "conclusion count and printed failures disagree")
+    ck.part("consts", events=len(events), ops=dict(ops), rejected=all_rejected, failed_conditions=total_failed, stuck=summary["stuck"])
     for e in events:
         if e["op"] == "consts":
             ck.sample({k: v for k, v in e.items()})
-    for i in rejected:
-        e = events[i]
-        if e.get("cert"):
-            raise vf.ToolError("certificate event rejected (committed spec data wrong?): %s" % json.dumps({k: e.get(k) for k in ("f", "d", "op", "k")}))
-        if e["op"] in C10.ALL_OPS + ["from", "from_mont", "mul_small"]:
-            sig, desc = C10.signature(e), C10.describe(e)
-        else:
-            sig = "%s.%s rejected%s" % (e["f"], e["op"], " n=%d" % e["n"] if "n" in e else "")
-            desc = json.dumps({k: v for k, v in e.items() if k not in ("h", "sq", "chain")})
-        ck.violation("consts: " + sig, desc, {"engine": "consts", "seed": ck.seed, "tier": tier, "event": {k: v for k, v in e.items() if k != "chain"}})
-    for kind, who, what in fails:
-        if kind == "DATA_FAIL" and not rejected:
-            raise vf.ToolError("committed specification data failed its own check: %s (%s)" % (what, who))
-        ck.violation("certificate %s: %s" % (who, what), "condition not derivable from the recorded calls: %s for %s" % (what, who),
-                     {"engine": "consts", "seed": ck.seed, "tier": tier, "failed": [kind, who, what]})
-    ck.require(int(concl[0].group(1)) == len(fails), "conclusion count and printed failures disagree")
+
+
 
 
 def signature_dec(d):
